@@ -1,0 +1,72 @@
+//go:build verif
+
+package genetics
+
+// Verification hooks (build tag `verif`): exported wrappers around unexported genetic operators and
+// read-only accessors for unexported fields. Add-only; nothing here is compiled without the tag.
+
+import (
+	"github.com/yaricom/goNEAT/v4/neat"
+	"github.com/yaricom/goNEAT/v4/neat/network"
+)
+
+// VDuplicate is Genome.duplicate
+func VDuplicate(g *Genome, newId int) (*Genome, error) { return g.duplicate(newId) }
+
+// VMutate applies the named mutator. The cached phenotype is dropped first: the library only ever
+// applies structural mutators to genomes fresh from duplicate/mate (see Species.reproduce).
+func VMutate(kind string, g *Genome, innov InnovationsObserver, idGen network.NodeIdGenerator, opts *neat.Options, generation int, times int) (bool, error) {
+	g.Phenotype = nil
+	switch kind {
+	case "connect_sensors":
+		return g.mutateConnectSensors(innov, opts)
+	case "add_link":
+		return g.mutateAddLink(innov, generation, opts)
+	case "add_node":
+		return g.mutateAddNode(innov, idGen, opts)
+	case "link_weights":
+		return g.mutateLinkWeights(opts.WeightMutPower, 1.0, gaussianMutator)
+	case "link_weights_cold":
+		return g.mutateLinkWeights(opts.WeightMutPower, 1.0, goldGaussianMutator)
+	case "random_trait":
+		return g.mutateRandomTrait(opts)
+	case "link_trait":
+		return g.mutateLinkTrait(times)
+	case "node_trait":
+		return g.mutateNodeTrait(times)
+	case "toggle_enable":
+		return g.mutateToggleEnable(times)
+	case "gene_reenable":
+		return g.mutateGeneReEnable()
+	case "all_nonstructural":
+		return g.mutateAllNonstructural(opts)
+	}
+	panic("unknown mutator " + kind)
+}
+
+// VMate applies crossover method 0 (multipoint), 1 (multipoint avg) or 2 (single point)
+func VMate(method int, g, og *Genome, genomeId int, fitness1, fitness2 float64) (*Genome, error) {
+	switch method {
+	case 0:
+		return g.mateMultipoint(og, genomeId, fitness1, fitness2)
+	case 1:
+		return g.mateMultipointAvg(og, genomeId, fitness1, fitness2)
+	case 2:
+		return g.mateSinglePoint(og, genomeId)
+	}
+	panic("unknown mate method")
+}
+
+// VVerify is Genome.verify
+func VVerify(g *Genome) (bool, error) { return g.verify() }
+
+// VInnovationType reads Innovation.innovationType (1 new node, 2 new link)
+func VInnovationType(i Innovation) byte { return byte(i.innovationType) }
+
+// VIoNodes reads MIMOControlGene.ioNodes
+func VIoNodes(g *MIMOControlGene) []*network.NNode { return g.ioNodes }
+
+// VNewGenomeRand is newGenomeRand
+func VNewGenomeRand(newId, in, out, n, maxHidden int, recurrent bool, linkProb float64, opts *neat.Options) (*Genome, error) {
+	return newGenomeRand(newId, in, out, n, maxHidden, recurrent, linkProb, opts)
+}
